@@ -17,7 +17,14 @@ import copy
 import itertools
 import json
 
-from canon_schema import canon, canon_value, dump_schema, ty_of
+from canon_schema import canon_value, dump_schema, ty_of
+
+
+def canon(d):
+    """Canonical text of a dump that keeps CODE POINTS apart: with ensure_ascii an astral character and the two lone
+    surrogates its escape is (wrongly) decoded into would both be written as the same \\ud83d\\ude00."""
+    return json.dumps(d, sort_keys=True, ensure_ascii=False)
+
 from common import REPO
 from gen import schema as gs
 from gen import sdl
